@@ -51,10 +51,13 @@ ASSUMPTIONS = [
 ]
 
 DIAMETERS = [2.0, 2.5, 3.0, 3.5, 4.0, 4.5, 5.0, 6.0]
-SIZES = [(6, 6), (8, 6), (7, 11), (10, 10), (12, 9), (14, 14), (16, 12), (20, 20), (6, 20), (18, 15)]
+SIZES = [(6, 6), (8, 6), (7, 11), (10, 10), (12, 9), (14, 14), (16, 12), (20, 20), (6, 20), (18, 15), (5, 30), (6, 40),
+         (30, 5)]
 # quick tier: fixed (size, diameter, axis, background) combinations -> five compilations
 QUICK_COMBOS = [((6, 6), 2.0, 2, "default"), ((8, 6), 3.0, 0, "explicit_high"), ((10, 10), 3.5, 1, "default"),
-                ((12, 9), 5.0, 2, "explicit_high"), ((20, 20), 6.0, 0, "default"), ((14, 14), 4.0, 2, "explicit_low")]
+                ((12, 9), 5.0, 2, "explicit_high"), ((20, 20), 6.0, 0, "default"), ((14, 14), 4.0, 2, "explicit_low"),
+                # strongly elongated designs (any iteration bound derived from one side length shows here)
+                ((5, 30), 3.0, 1, "default"), ((5, 30), 3.0, 1, "default")]
 
 
 # ------------------------------------------------------------------------------------------------
